@@ -19,6 +19,7 @@ PROP = dict(
     harnesses=[
         H(NS, "c12", "c12_timer", "timer transition == reference; V4 sends plain v4 (48 bytes, no marker), upgrading sends v4 with the marker (v4 family)", timeout=600),
         H(NS, "c12", "c12_incoming", "incoming transition == reference (soundness + completeness), counter stays in 1..=8, unexpected versions ignored entirely (48-byte packets)", timeout=600),
+        H(NS, "c12", "c12_confirm", "UpgradedToV5 -> V5 on a matching NTPv5 answer and only then (foreign cookie / late answer: stays UpgradedToV5); 76-byte template, one header combination", timeout=600),
         H(NS, "c12", "c12_fallback", "UpgradedToV5 with the last two polls unanswered (reach in {0x00,0x04,0x80,0xFC}) returns to V4 before sending a plain NTPv4 request, or is reset when unreachable after start-up", timeout=600),
         H(NS, "c12", "c12_incoming_v5", "incoming transition for NTPv5 answers (UpgradedToV5 -> V5 on a matching answer only)", tier="thorough"),
     ],
